@@ -151,6 +151,21 @@ def check_proofs(prop):
     return res
 
 
+def run_coqchk(prop):
+    """Thorough tier: re-check Props/<prop>.vo and everything it depends on with the
+    independent checker, and read the axiom / unsafe-feature summary it prints."""
+    with build.Lock():
+        rc, out = build.run(["timeout", "1500", "coqchk", "-silent", "-o", "-Q", ".", "SV", "SV.Props.%s" % prop],
+                            cwd=COQ, timeout=1560)
+    summ = out[out.find("CONTEXT SUMMARY"):] if "CONTEXT SUMMARY" in out else out[-1500:]
+    items = dict(re.findall(r"^\* ([^:\n]+):\s*(.*?)\s*$", summ, re.M))
+    clean = (rc == 0 and items.get("Axioms") == "<none>"
+             and items.get("Constants/Inductives relying on type-in-type") == "<none>"
+             and items.get("Constants/Inductives relying on unsafe (co)fixpoints") == "<none>"
+             and items.get("Inductives whose positivity is assumed") == "<none>")
+    return {"rc": rc, "clean": clean, "summary": items, "log": summ[-1500:]}
+
+
 def write_replay(prop, seed, payload):
     d = os.path.join(ROOT, "replays")
     os.makedirs(d, exist_ok=True)
@@ -233,6 +248,14 @@ def main(mod):
     if build_error is None:
         proof = check_proofs(prop)
         ctx.proof = proof
+        if a.tier == "thorough" and proof["ok"]:
+            chk = run_coqchk(prop)
+            ctx.extra["coqchk"] = {"cmd": "cd /verif/coq && coqchk -silent -o -Q . SV SV.Props.%s" % prop,
+                                   "clean": chk["clean"], "summary": chk["summary"]}
+            if not chk["clean"]:
+                proof["ok"] = False
+                proof["failed_theorem"] = "(coqchk)"
+                proof["log"] = chk["log"]
     else:
         # model may still be runnable even if a proof broke: try to get the driver alone
         try:
